@@ -1,0 +1,29 @@
+//go:build verif
+
+package gchan
+
+import "context"
+
+type verifHookKey struct{}
+
+// VerifHook is called at every scheduling point reached by a goroutine
+// whose context was derived from [WithVerifHook].
+// op is "SendC", "RecvC" or "Point"; label is the call site's description.
+type VerifHook func(op, label string)
+
+// WithVerifHook returns a context carrying f.
+// Only goroutines using the returned context (or its children) reach f.
+func WithVerifHook(ctx context.Context, f VerifHook) context.Context {
+	return context.WithValue(ctx, verifHookKey{}, f)
+}
+
+// VerifPoint is a named scheduling point for the verification harness.
+func VerifPoint(ctx context.Context, name string) {
+	verifPoint(ctx, "Point", name)
+}
+
+func verifPoint(ctx context.Context, op, label string) {
+	if f, ok := ctx.Value(verifHookKey{}).(VerifHook); ok {
+		f(op, label)
+	}
+}
